@@ -337,7 +337,12 @@ func (s *MemoryEventStore) After(_ context.Context, sessionID, streamID string, 
 		if !ok {
 			return nil, fmt.Errorf("MemoryEventStore.After: unknown stream ID %v in session %q", streamID, sessionID)
 		}
-		// index is the caller's: keep index+1 from overflowing.
+		// index is the caller's. Everything comes after an index below -1, as
+		// after -1 (and index+1-dl.first must not wrap around for math.MinInt).
+		if index < -1 {
+			index = -1
+		}
+		// Likewise, keep index+1 from overflowing.
 		if index >= dl.first+len(dl.data) {
 			return nil, nil // nothing was appended after index
 		}
